@@ -314,12 +314,25 @@ def run_sim(c):
     cct = lcapy.Circuit()
     for ln in c['net']:
         cct.add(ln)
-    tv = np.linspace(0, float(Fraction(c['T'])), int(c['N']))
+    T, N = float(Fraction(c['T'])), int(c['N'])
+    grid = c.get('grid', 'uniform')
+    if grid == 'uniform':
+        tv = np.linspace(0, T, N)
+    elif grid == 'quadratic':          # fine near t = 0, coarse later
+        tv = T * np.linspace(0, 1, N) ** 2
+    elif grid == 'two-rate':           # two uniform stretches of different step joined at t = 1
+        tv = np.hstack((np.linspace(0, 1, N)[:-1], np.linspace(1, T, N // 2)))
+    else:
+        raise ValueError('grid ' + grid)
     r = cct.sim(tv, integrator=c['integrator'])
-    out = {}
+    out = {'tv': [float(u) for u in tv]}
     for pr in c['probe']:
         name, q = pr.split('.')
         out[pr] = [float(u) for u in getattr(r[name], q)]
+    if c.get('symbolic'):
+        # the library's own symbolic response at the same instants (cross-check of the closed form used as reference)
+        name, q = c['probe'][0].split('.')
+        out['sym'] = [float(u) for u in getattr(cct[name], q).evaluate(tv)]
     return out
 
 
